@@ -627,7 +627,9 @@ static Token *subst(Token *tok, MacroArg *args, bool is_objlike) {
     // Handle a macro token. Macro arguments are completely macro-expanded
     // before they are substituted into a macro body.
     if (arg) {
-      Token *t = preprocess2(arg->tok);
+      // Expand a copy: preprocess2 relinks the tokens it is given, and
+      // the argument may be needed again (used twice, or stringized).
+      Token *t = preprocess2(add_hideset(arg->tok, NULL));
       t->at_bol = tok->at_bol;
       t->has_space = tok->has_space;
       for (; t->kind != TK_EOF; t = t->next)
